@@ -196,7 +196,11 @@ def consistency(g, label: str = "consistency") -> None:
             mon.check(abs(abs(r.x) - n) <= 1e-9 * n and abs(r.x * r.y - det) <= 1e-9 * abs(det), label + ".resolution", lambda: wit({"resolution": [r.x, r.y]}), key="resolution", cls=fam, sig=sig)
         # (4) coordinate labels
         cc, ex = call(lambda: g.coordinates)
-        if fam == "rotated/sheared":
+        off = max(abs(b), abs(d))
+        if 1e-11 <= off <= 1e-9:
+            # the library calls a box axis aligned when |b|,|d| < 1e-10 (absolute); residues of that size on tiny pixels are neither
+            mon.skip(label + ".coordinates", "rotation residue at the axis-aligned tolerance")
+        elif off > 1e-9:
             mon.check(isinstance(ex, ValueError), label + ".coordinates", lambda: wit({"exc": ex}), key="coordinates-on-rotated", cls=fam, sig=sig)
         elif ex is not None:
             mon.fail(label + ".coordinates", wit({"exc": ex}), key="coordinates-raises", cls=fam)
